@@ -225,7 +225,8 @@ impl Property for C05 {
                     },
                     _ => Src::Timeout(*rng.pick(&[0u64, 0, 5, 20, 60, 150])),
                 };
-                if !srcs.contains(&s) {
+                // a process may be listed twice; other sources are not repeated
+                if !srcs.contains(&s) || (matches!(s, Src::Proc(_)) && rng.chance(1, 3)) {
                     srcs.push(s);
                 }
                 next_int += 1;
